@@ -6,6 +6,7 @@ import (
 	"fmt"
 	"image"
 	"image/color"
+	"image/draw"
 	"strings"
 
 	"github.com/makiuchi-d/gozxing"
@@ -265,6 +266,38 @@ func checkMatrix(bm *gozxing.BitMatrix, m *mmodel, r *fw.Rand) string {
 		}
 		if !ok || g.Y != want {
 			return fmt.Sprintf("At(%d,%d)=%v, model gray %d", x, y, bm.At(x, y), want)
+		}
+		// whatever other pixel accessors the image view offers say the same colour as At
+		if v, ok := interface{}(bm).(interface {
+			RGBA64At(x, y int) color.RGBA64
+		}); ok {
+			cr, cg, cb, ca := bm.At(x, y).RGBA()
+			if c := v.RGBA64At(x, y); uint32(c.R) != cr || uint32(c.G) != cg || uint32(c.B) != cb || uint32(c.A) != ca {
+				return fmt.Sprintf("RGBA64At(%d,%d)=%v, At says %v", x, y, c, bm.At(x, y))
+			}
+		}
+	}
+	// the image view as the standard library consumes it: drawn over a white page and copied into a
+	// colour image it shows the model's picture (small matrices only: a draw costs w*h)
+	if m.w*m.h <= 1200 && r.Intn(6) == 0 {
+		page := image.NewGray(bm.Bounds())
+		draw.Draw(page, page.Bounds(), image.White, image.Point{}, draw.Src)
+		draw.Draw(page, page.Bounds(), bm, image.Point{}, draw.Over)
+		cp := image.NewNRGBA(bm.Bounds())
+		draw.Draw(cp, cp.Bounds(), bm, image.Point{}, draw.Src)
+		for y := 0; y < m.h; y++ {
+			for x := 0; x < m.w; x++ {
+				want := uint8(255)
+				if m.b[y][x] {
+					want = 0
+				}
+				if got := page.GrayAt(x, y).Y; got != want {
+					return fmt.Sprintf("image view drawn over a white page: pixel (%d,%d) = %d, model %d", x, y, got, want)
+				}
+				if got := cp.NRGBAAt(x, y); got != (color.NRGBA{want, want, want, 255}) {
+					return fmt.Sprintf("image view copied into an NRGBA image: pixel (%d,%d) = %v, model gray %d opaque", x, y, got, want)
+				}
+			}
 		}
 	}
 	return ""
